@@ -193,6 +193,21 @@ def generate(rng, tier):
                     lines += ["FILE %s reg %s" % (hx("main.conf"), hx(t)), "PF 0 " + hx("main.conf")]
                 cases.append(Case("u%d" % n, lines, {"kind": "unbalanced_" + sname, "where": "after", "nfiles": len(files), "deprecated": False}))
                 n += 1
+    # a section refused by its validation callback: the callback reports on the context it is handed, which by then stands where
+    # the section ended - the line of the closing brace, the file it is in
+    vschema = with_include([Opt("i", "int", 0, 0), Opt("m", "sec", gen.MULTI | gen.TITLE, None, "v", [Opt("x", "int", 0, 0)]),
+                            Opt("sec", "sec", 0, None, "v", [Opt("x", "int", 0, 0), Opt("inner", "sec", 0, None, "v", [Opt("z", "int", 0, 0)])])])
+    vsl = schema_lines(vschema)
+    vtexts = [(b"m t {\n x = 1\n\n}\ni = 2\n", []), (b"i = 1\nsec {\n\n x = 2\n inner {\n  z = 3\n }\n\n\n}\n", []),
+              (b'm t {\n x = 1\ninclude("tail.conf")\ni = 3\n', [("tail.conf", b" x = 2\n}\n\n")]),
+              (b'sec {\ninclude("tail2.conf")\n}\n', [("tail2.conf", b"inner {\n z = 1\n\n}\n x = 4\n")]),
+              (b"m a { x = 1 }\nm b {\n x = 2\n}\n", [])]
+    for vt, vfiles in vtexts:
+        for k in range(4):
+            cdir = "%s/v%d" % (root, n)
+            lines = vsl + ["CWD " + hx(cdir), "X 0 0"] + ["FILE %s reg %s" % (hx(fn), hx(body)) for fn, body in vfiles] + ["FAILAT %d" % k, "PB 0 " + hx(vt)]
+            cases.append(Case("v%d" % n, lines, {"kind": "section_validator", "where": "closing_brace", "nfiles": len(vfiles), "deprecated": False}))
+            n += 1
     # the error function of a context replaced between two parses: every diagnostic of the later parse - also from inside
     # sections an earlier parse entered or created - is delivered to the function installed now (G2), none to the old one
     eschema = [Opt("i", "int", 0, 0), Opt("s", "str", 0, None),
